@@ -81,6 +81,21 @@ func C07(c *Ctx) int {
 			job.CancelAt = append(job.CancelAt, at)
 		}
 	}
+	// parked: nothing is answered, the instance falls silent at its first requests, then the cancel
+	for i, p := range ps {
+		hasTask := false
+		for _, n := range p.Nodes {
+			if n.Kind == "task" {
+				hasTask = true
+			}
+		}
+		if hasTask {
+			for rep := 0; rep < 2; rep++ {
+				job.Schedules = append(job.Schedules, drive.Schedule{Prog: i})
+				job.CancelAt = append(job.CancelAt, -2)
+			}
+		}
+	}
 	// the reference runs themselves are cancel-at-the-end cases
 	for i := range ps {
 		job.Schedules = append(job.Schedules, drive.Schedule{Prog: i})
@@ -136,4 +151,53 @@ func C07(c *Ctx) int {
 		}
 	}
 	return c.Finish("fault_enumeration", "corpus covering every node kind and blocking situation (tasks awaiting an answer, parallel / inclusive joins, sub-processes, listening catch events, event-based gateway, boundary listeners, random block programs); for every program the context is cancelled after k traces for every k (quick: at most 24 evenly spread k), with requests answered and awaited events delivered at once; after the cancel: WaitUntilComplete latency, tracer termination, subscriber closure, context of late requests, census of the goroutines the instance started (pprof label); the run up to the cancel and the post-cancel observations are validated by TokenGameTrace; distinct = (program, cancel point) pairs", !c.Quick(), fs)
+}
+
+// ParkedCancelRound: every program with a task is started, nothing is answered, and once the
+// instance has fallen silent (tokens at their first requests, the completion monitor parked in
+// its wait) the context is cancelled.  TokenGameTrace then rejects a cease-flow trace (it would
+// claim that every token was consumed) besides the usual post-cancel contract.
+func (c *Ctx) ParkedCancelRound(fs []Finding, ps []*prog.Program, reps int) {
+	job := &Job{Programs: ps, Opts: JobOpts{Mode: "cancel", Seed: c.Seed, TMs: 3000, Perturb: 9}}
+	for i, p := range ps {
+		for _, n := range p.Nodes {
+			if n.Kind == "task" {
+				for rep := 0; rep < reps; rep++ {
+					job.Schedules = append(job.Schedules, drive.Schedule{Prog: i})
+					job.CancelAt = append(job.CancelAt, -2)
+				}
+				break
+			}
+		}
+	}
+	if len(job.Schedules) == 0 {
+		return
+	}
+	runs, err := ReplayAll(c.sub("parked-cancel"), job, c.Workers)
+	if err != nil {
+		c.Infraf("parked cancel runs: %v", err)
+		return
+	}
+	c.Evaluations += len(runs)
+	progOf := func(r int) int { return job.Schedules[r].Prog }
+	acc, fails, _, err := c.ValidateTrace("TokenGameTrace", ps, runs, drive.FilterTG, progOf, "")
+	if err != nil {
+		c.Infraf("parked cancel validate: %v", err)
+		return
+	}
+	var rejected []int
+	for r := range runs {
+		if !acc[r] {
+			rejected = append(rejected, r)
+		}
+	}
+	sort.Ints(rejected)
+	for _, r := range rejected {
+		f := fails[r]
+		p := ps[progOf(r)]
+		c.Reject(fs, Rejection{Prop: c.Prop, Tags: append([]string{"parked-cancel"}, p.Tags...), Ev: f.Ev, Node: f.Node,
+			Detail: fmt.Sprintf("cancel while parked at unanswered requests; rejected at %s %s", f.Ev, f.Node)},
+			map[string]any{"program": p, "cancel_at": -2, "log": runs[r]})
+	}
+	c.Extra["parked_cancel_runs"] = len(runs)
 }
